@@ -125,7 +125,7 @@ remove.gen = _gen
 # ------------------------------------------------------------------ __init__
 # establishes the invariant that remove() preserves: C (where), D (totals)
 import z3 as _z3  # noqa: E402
-from ..pyvc.types import V as _V  # noqa: E402
+from ..pyvc.types import V as _V, V  # noqa: E402
 from .core_stats import _new_maxcounter  # noqa: E402
 
 WhereT.default = _V(Ty.Set(Ty.Int), [_z3.K(Ty.IntS, _z3.BoolVal(False))])
@@ -208,3 +208,110 @@ def _gen_init(rng):
 
 
 init.gen = _gen_init
+
+
+# ------------------------------------------------------------- SliceFinder.best
+# C07 'targets are honoured': whatever best() returns is one of the cached slicings and satisfies every
+# target that is in force (an explicit argument, else the finder's default).
+import ast as _ast  # noqa: E402
+from ..pyvc.engine import Unsupported as _Unsupported, NeedSplit as _NeedSplit, RaiseSignal as _RaiseSignal, PyConst as _PyConst  # noqa: E402
+
+CostRec = Ty.Rec("ContractionCosts", {"size": Ty.Int, "overhead": Ty.Real, "nslices": Ty.Int, "total_flops": Ty.Int}, mutable=False)
+FinderT = ObjT("SliceFinder", {"costs": Ty.Map(Ty.Key, CostRec), "target_size": Ty.Opt(Ty.Int), "target_overhead": Ty.Opt(Ty.Real), "target_slices": Ty.Opt(Ty.Int)})
+ItemT = Ty.Tuple([Ty.Key, CostRec])
+
+
+def x_maybe_default(engine, st, args, node, kw):
+    """self._maybe_default(attr, value): value, or the finder's attribute of that name when value is None"""
+    selfv = engine.deref(st, args[0])
+    attr = args[1].val
+    val = args[2]
+    dflt = selfv.fields[attr]
+    if isinstance(val, V) and isinstance(val.t, Ty.Opt):
+        return Ty.ite(val.c[0], dflt, val)
+    if isinstance(val, V) and isinstance(val.t, Ty._None):
+        return dflt
+    return engine.coerce(val, dflt.t)
+
+
+def x_filter_items(engine, st, _a, node, kw):
+    pred, seq = node.args
+    if not isinstance(pred, _ast.Lambda):
+        raise _Unsupported("filter() with another predicate")
+    return _PyConst(("filtered-items", pred, seq))
+
+
+x_filter_items.raw = True
+
+
+def x_min_valid(engine, st, _a, node, kw):
+    """min(<filtered items>, key=...): some item satisfying the filter (ValueError if there is none)"""
+    src = engine.eval(st, node.args[0])
+    if not (isinstance(src, _PyConst) and isinstance(src.val, tuple) and src.val[0] == "filtered-items"):
+        raise _Unsupported("min() of something else")
+    _tag, pred, seq = src.val
+    cont = engine.deref(st, engine.eval(st, seq.func.value))  # self.costs
+    none = engine.fresh(st, "no_valid_slicing", node, Ty.BoolS)
+    d = st.decided(none)
+    if d is None:
+        raise _NeedSplit(none)
+    if d:
+        raise _RaiseSignal("ValueError")
+    k = engine.fresh(st, "chosen", node, Ty.IntS)
+    st.assume(cont.c[0][k])
+    item = Ty.mk_tuple([V(Ty.Key, [k]), engine.mapval(cont, k)])
+    old = dict(engine.bound)
+    engine.bound[pred.args.args[0].arg] = item
+    try:
+        st.assume(engine.truth(st, engine.eval(st, pred.body)))
+    finally:
+        engine.bound = old
+    return item
+
+
+x_min_valid.raw = True
+
+TS = "(target_size if target_size is not None else self.target_size)"
+TO = "(target_overhead if target_overhead is not None else self.target_overhead)"
+TN = "(target_slices if target_slices is not None else self.target_slices)"
+best = Contract(
+    target="cotengra.slicer:SliceFinder.best",
+    variant="single",
+    props=["C07"],
+    self_type=FinderT,
+    params={"k": Ty.NoneT, "target_size": Ty.Opt(Ty.Int), "target_overhead": Ty.Opt(Ty.Real), "target_slices": Ty.Opt(Ty.Int)},
+    returns=ItemT,
+    externals={"SliceFinder._maybe_default": x_maybe_default, "filter": x_filter_items, "min": x_min_valid},
+    raises={"ValueError": "True"},
+    ensures=[
+        "result[0] in self.costs and result[1] == self.costs[result[0]]",
+        f"implies({TS} is not None, result[1].size <= unopt({TS}))",
+        f"implies({TO} is not None, result[1].overhead <= unopt({TO}))",
+        f"implies({TN} is not None, result[1].nslices >= unopt({TN}))",
+    ],
+    assumptions=["min(iterable, key=f) returns an element of the iterable (ValueError if it is empty); filter keeps exactly the elements satisfying the predicate;"
+                 " a cached slicing is represented by the figures best() looks at"],
+)
+CONTRACTS.append(best)
+
+
+def _gen_best(rng):
+    import cotengra as ctg
+    from cotengra.slicer import SliceFinder
+    from ..scope import random_tree_ssa
+
+    n = rng.randint(3, 6)
+    con = ctg.utils.rand_equation(n, 3, n_out=rng.randint(0, 2), seed=rng.randint(0, 10**6), d_min=2, d_max=4)
+    tree = ctg.ContractionTree.from_path(con.inputs, con.output, con.size_dict, ssa_path=random_tree_ssa(n, rng))
+    size0 = tree.max_size()
+    sf = SliceFinder(tree, target_size=max(1, size0 // rng.choice((2, 4, 8))), seed=rng.randint(0, 99))
+    for _ in range(rng.randint(1, 4)):
+        try:
+            sf.trial()
+        except RuntimeError:
+            pass
+    args = (None, rng.choice((None, max(1, size0 // 2), size0 * 2)), rng.choice((None, 1.5, 100.0)), rng.choice((None, 1, 2, 4)))
+    return {"self": sf, "args": args, "describe": f"{con.inputs}->{con.output} sizes {con.size_dict} path {tree.get_path()} cached={len(sf.costs)} best{args}"}
+
+
+best.gen = _gen_best
